@@ -428,10 +428,10 @@ def CmpImpl.inner (c : CmpImpl) : GToks :=
         ("_" ::: "=>" ::: absPath ["core", "unreachable"] +++ ["!", "(", ")", ","]))
 
 def cmpAttrs : GToks :=
-  genAttr ["automatically_derived"] +++ genAttr ["allow", "(", "clippy", "::", "double_parens", ")"] +++
+  allowUserLints +++ genAttr ["automatically_derived"] +++ genAttr ["allow", "(", "clippy", "::", "double_parens", ")"] +++
     genAttr ["allow", "(", "unused_parens", ")"]
 def cmpAllowAttrs : GToks :=
-  genAttr ["allow", "(", "clippy", "::", "double_parens", ")"] +++ genAttr ["allow", "(", "unused_parens", ")"]
+  allowUserLints +++ genAttr ["allow", "(", "clippy", "::", "double_parens", ")"] +++ genAttr ["allow", "(", "unused_parens", ")"]
 
 /-- the emitted items: one impl, plus the hidden checker for `Eq` -/
 def CmpImpl.render (c : CmpImpl) : List GToks :=
